@@ -103,6 +103,7 @@ type advServer struct {
 	frames  int
 	gotShip bool
 	conns   int
+	perConn []int // SHIP (binary) frames received per upgraded connection, in order of arrival
 }
 
 func newAdvServer(crt tls.Certificate) (*advServer, error) {
@@ -122,8 +123,10 @@ func newAdvServer(crt tls.Certificate) (*advServer, error) {
 		defer c.Close()
 		s.mu.Lock()
 		s.conns++
+		idx := len(s.perConn)
+		s.perConn = append(s.perConn, 0)
 		s.mu.Unlock()
-		_ = c.SetReadDeadline(time.Now().Add(3 * time.Second))
+		_ = c.SetReadDeadline(time.Now().Add(6 * time.Second))
 		for {
 			mt, _, err := c.ReadMessage()
 			if err != nil {
@@ -133,12 +136,19 @@ func newAdvServer(crt tls.Certificate) (*advServer, error) {
 			s.frames++
 			if mt == websocket.BinaryMessage {
 				s.gotShip = true
+				s.perConn[idx]++
 			}
 			s.mu.Unlock()
 		}
 	}), ReadHeaderTimeout: 5 * time.Second}
 	go func() { _ = srv.Serve(ln) }()
 	return s, nil
+}
+
+func (s *advServer) shipFramesPerConn() []int {
+	s.mu.Lock()
+	defer s.mu.Unlock()
+	return append([]int(nil), s.perConn...)
 }
 
 func (s *advServer) obs() (int, int, bool) {
@@ -183,6 +193,11 @@ func genC02(r *vc.Rand, i int) *c02Case {
 		}
 	} else if c.CertKind == "none" {
 		c.CertKind = "correct"
+	}
+	if c.Dir == "outbound" && r.Chance(1, 4) {
+		// a server the hub legitimately connected to before (its own SKI, its own key) is announced a second
+		// time under the SKI of another registered device, at the same address: TLS session resumption
+		c.CertKind, c.KeyType, c.Chain, c.AKI = "second-service-same-host", "p256", false, false
 	}
 	return c
 }
@@ -334,6 +349,47 @@ func runC02(c *c02Case, col *vc.Collector) {
 			} else {
 				col.Violation(prop, "inbound-legitimate-refused", fmt.Sprintf("a client with a correct certificate, TLS %s and the ship sub-protocol got no SHIP reply: %+v", tlsName(c.TLSMax), o), c.ID, wit)
 			}
+		}
+		return
+	}
+
+	if c.CertKind == "second-service-same-host" {
+		x, ownSKI, err := MakeCert(CertOpts{})
+		if err != nil {
+			col.Inconclusive(prop, "setup")
+			return
+		}
+		srv, err := newAdvServer(x)
+		if err != nil {
+			col.Inconclusive(prop, "setup")
+			return
+		}
+		defer srv.ln.Close()
+		a.Start()
+		a.Register(ownSKI)
+		cb := a.Mgr.VerifResolveCB()
+		cb(map[string]string{"txtvers": "1", "id": "ADV", "path": "/ship/", "ski": ownSKI, "register": "false"}, "adv", "", []net.IP{net.IPv4(127, 0, 0, 1)}, srv.Port, false)
+		if !WaitFor(6*time.Second, func() bool { f := srv.shipFramesPerConn(); return len(f) > 0 && f[0] > 0 }) {
+			col.Count(prop, "outbound:legitimate-first-connection-not-established", 1)
+			return
+		}
+		col.Count(prop, "legitimate-peer-accepted", 1)
+		// the same server is now announced as the victim, which A's user has registered as well
+		a.Register(victimSKI)
+		cb(map[string]string{"txtvers": "1", "id": "VICTIM", "path": "/ship/", "ski": victimSKI, "register": "false"}, "victim", "", []net.IP{net.IPv4(127, 0, 0, 1)}, srv.Port, false)
+		WaitFor(5*time.Second, func() bool { return len(srv.shipFramesPerConn()) > 1 })
+		time.Sleep(400 * time.Millisecond)
+		per := srv.shipFramesPerConn()
+		wit["observed"] = map[string]any{"ship_frames_per_connection": per, "own_ski": ownSKI}
+		col.Class(prop, fmt.Sprintf("outbound:second-service-same-host:connections=%d", min(len(per), 4)))
+		for i := 1; i < len(per); i++ {
+			if per[i] > 0 {
+				col.Violation(prop, "outbound-accepted:second-service-same-host", fmt.Sprintf("the hub dialled SKI %s at a server that holds the key of SKI %s (an earlier, legitimate connection went to the same address) and sent %d SHIP messages on that connection", short(victimSKI), short(ownSKI), per[i]), c.ID, wit)
+				break
+			}
+		}
+		if len(per) > 1 {
+			col.Count(prop, "refused:outbound:second-service-same-host", 1)
 		}
 		return
 	}
